@@ -2536,7 +2536,8 @@ func (p *Parser) parseSource(subqueries bool) (Source, error) {
 			tok, _, lit = p.ScanIgnoreWhitespace()
 			if tok == AS {
 				if tok, _, lit = p.ScanIgnoreWhitespace(); len(lit) > 0 {
-					return &SubQuery{Statement: stmt, depth: 1 + stmt.Depth()}, nil
+					// (the alias is part of the source: join conditions and outer fields refer to it)
+					return &SubQuery{Statement: stmt, Alias: lit, depth: 1 + stmt.Depth()}, nil
 				} else {
 					p.Unscan()
 				}
